@@ -59,6 +59,9 @@ func PayloadLen(r *mon.Rand, allowBig bool) int {
 var knownMetaFixed = map[byte]int{0x00: 2, 0x20: 1, 0x21: 1, 0x51: 3, 0x54: 5, 0x58: 4, 0x59: 2}
 var knownMetaText = []byte{0x01, 0x02, 0x03, 0x04, 0x05, 0x06, 0x07, 0x08, 0x09, 0x7F}
 
+// MagicPrefixes are byte sequences that software treats specially at the start of a text or a file.
+var MagicPrefixes = [][]byte{{0xEF, 0xBB, 0xBF}, {0xFF, 0xFE}, {0xFE, 0xFF}, []byte("RIFF"), []byte("MThd"), []byte("MTrk"), {0x00}, []byte("{\\rtf"), []byte("@KMIDI KARAOKE FILE"), []byte("\\"), []byte("/"), {0x1B, '$', 'B'}}
+
 // UnknownMetaTypes are the meta types the library has no name for.
 var UnknownMetaTypes []byte
 
@@ -105,6 +108,15 @@ func MetaEvent(r *mon.Rand, allowBig bool) []byte {
 		p := r.Bytes(PayloadLen(r, allowBig))
 		if r.P(1, 6) {
 			embedMarker(r, p)
+		}
+		if r.P(1, 8) {
+			// texts as editors and converters write them: with a byte order mark or another signature in front
+			m := MagicPrefixes[r.Intn(len(MagicPrefixes))]
+			if len(p) >= len(m) {
+				copy(p, m)
+			} else {
+				p = append([]byte(nil), m...)
+			}
 		}
 		return ref.Meta(t, p)
 	default:
@@ -244,11 +256,14 @@ func SMFFile(r *mon.Rand, o FileOpts) *ref.EncFile {
 		for a := 0; a < na; a++ {
 			var al ref.Alien
 			al.Before = r.Intn(nt + 1)
-			copy(al.Type[:], [][]byte{[]byte("XFIH"), []byte("XFKM"), []byte("junk"), []byte("MTrX"), r.Bytes(4), []byte("mtrk")}[r.Intn(6)])
+			copy(al.Type[:], [][]byte{[]byte("XFIH"), []byte("XFKM"), []byte("junk"), []byte("MTrX"), r.Bytes(4), []byte("mtrk"), {0, 'p', 'a', 'd'}, {0, 0, 0, 0}, []byte("LIST"), []byte("data")}[r.Intn(10)])
 			if t := string(al.Type[:]); t == "MTrk" || t == "MThd" {
 				al.Type[3] = 'K'
 			}
-			al.Data = r.Bytes(r.Pick(0, 1, 2, 7, 8, 13, 100, 1000))
+			al.Data = r.Bytes(r.Pick(0, 1, 2, 3, 5, 7, 8, 13, 100, 999, 1000))
+			if a > 0 && r.P(1, 2) {
+				al.Before = f.Aliens[a-1].Before // directly behind the previous one
+			}
 			f.Aliens = append(f.Aliens, al)
 		}
 	}
